@@ -90,13 +90,17 @@ CHECKS: dict[str, dict] = {
         ref="5-C16",
     ),
     "C01": dict(
-        engine="spec/Program.tla (+ vf/render.py)",
-        text="Program.tla is the canonical-fragment grammar as a state machine (one action per construct: function header in five variants, class, control, "
-             "else, anonymous function, close, statements incl. string literals with delimiters, multi-line initialiser, blank, comment) with the expected first "
+        engine="spec/Program.tla (+ vf/render.py), spec/Scopes.tla, spec/ScopesTrace.tla, spec/PySuite.tla",
+        text="Program.tla is the canonical-fragment grammar as a state machine (one action per construct: function header in nine variants incl. multi-line, "
+             "brace-on-next-line, throws / return-type tails on their own lines, class and call-wrapped anonymous class, control, else, anonymous function, close, "
+             "statements incl. string literals with delimiters, multi-line initialiser, blank, comment) with the expected first "
              "line, last line and own length of every function per layout family as ghost state, and sanity invariants checked by TLC in every state. Every "
-             "complete program of four bounded configurations (breadth, nesting depth up to 4/5, mixed, body lengths across 15/30/60) is rendered in each of "
-             "the 7 languages (where the construct exists) and analysed by the real scan_file; name, start line/column, end line/column, length, order and "
-             "absence of extras are compared with the specification.",
+             "complete program of seven bounded configurations (breadth, nesting depth up to 4/5, mixed, call-wrapped classes one and two levels deep, body lengths "
+             "across 15/30/60) is rendered in each of the 7 languages (where the construct exists) and analysed through the scanner's own file path; name, start "
+             "line/column, end line/column, length, order and absence of extras are compared with the specification. Two implementation-shaped models are bound "
+             "to the code underneath: Scopes.tla (pairing of headers and blocks, folding, counting; recorded build_scopes intermediates recomputed by TLC) and "
+             "PySuite.tla (the Python suite finder as coded = the reference suite for every sequence of logical lines; every structure replayed into the real "
+             "extract_blocks, valid ones cross-checked with CPython's parser).",
         note="Canonical fragment = the grammar of Program.tla as rendered by vf/render.py; expected lines from the specification, the two columns from the "
              "renderer's construction knowledge (rendered line numbers asserted equal to the specification's). " + BASE_NOTE,
         technique="TLC-enumerated derivations with ghost oracle, every terminal state replayed into the real analysis",
